@@ -170,7 +170,7 @@ def cases(rng, tier, feats, drv_ok):
             ief = meta()[L]['interaction']
             for r in range(2 if iname in (None, 'shipped') else 1):
                 ie = ';'.join(f'{n}:{hexf(rng.felt())}' for n in ief)
-                tds = 1 << (t if r == 0 else rng.choice([t, t + 1, 12, 24, 30]))
+                tds = 1 << (t if r == 0 else rng.choice([t, t + 1, 12, 24, 30, 127, 128, 140, 200, 250]))     # (>= 2^128: the u128 range checks)
                 out.append({'line': f'eval_comp {L} {ie} {C14.pi_tokens(pi)} {hexl([rng.felt() for _ in range(M)])} {hexl([rng.felt() for _ in range(N)])} '
                                     f'{hexf(rng.felt())} {hexf(tds)} {hexf(rng.felt())}',
                             'kind': f'{L}:composition:preamble', 'layout': L if iname is None else f'dynamic[{iname}]', 'fn': 'composition'})
